@@ -1,2 +1,458 @@
--- line-protocol driver stub (Codec); replaced when the model exists
-def main : IO Unit := IO.println "stub"
+/-
+Line-protocol driver over `Model/Codec` (property C12).  One output line per input line; see
+`harness/src/bin/codec.rs` for the protocol.  `drv_codec --fix` runs the decoder with finding F7
+repaired (used to validate `/verif/fixes/F7-bitvec-decode.diff` against a patched tree).
+-/
+import QbiceVerif.Model.Codec
+
+open QbiceVerif.Codec
+
+namespace CodecDriver
+
+/-- Descriptor as the harness prints it: the model type plus what the rendering needs to know
+(which sequences are unordered collections). -/
+inductive D where
+  | leaf (t : Ty)
+  | opt (d : D) | res (a b : D) | seq (d : D) | set (d : D) | map (k v : D) | arr (n : Nat) (d : D)
+  | tup (ds : List D) | enm (ds : List D) | bound (d : D)
+  deriving Inhabited
+
+instance : Inhabited Ty := ⟨.unit⟩
+instance : Inhabited Val := ⟨.unit⟩
+
+partial def D.toTy : D → Ty
+  | .leaf t => t
+  | .opt d => .option d.toTy
+  | .res a b => .result a.toTy b.toTy
+  | .seq d => .seq d.toTy
+  | .set d => .seq d.toTy
+  | .map k v => .seq (.tuple (.cons k.toTy (.cons v.toTy .nil)))
+  | .arr n d => .array n d.toTy
+  | .tup ds => .tuple (TyList.ofList (ds.map D.toTy))
+  | .enm ds => .enum (TyList.ofList (ds.map D.toTy))
+  | .bound d => .bound d.toTy
+
+partial def D.unordered : D → Bool
+  | .leaf _ => false
+  | .opt d | .seq d | .arr _ d | .bound d => d.unordered
+  | .res a b => a.unordered || b.unordered
+  | .set _ | .map _ _ => true
+  | .tup ds | .enm ds => ds.any D.unordered
+
+abbrev Parser (α : Type) := List Char → Option (α × List Char)
+
+def takeWhile (p : Char → Bool) : List Char → List Char × List Char
+  | [] => ([], [])
+  | c :: cs => if p c then let (a, b) := takeWhile p cs; (c :: a, b) else ([], c :: cs)
+
+def parseNat : Parser Nat := fun cs =>
+  let (ds, rest) := takeWhile Char.isDigit cs
+  if ds.isEmpty then none else some (ds.foldl (fun n c => 10 * n + (c.toNat - 48)) 0, rest)
+
+def expect (c : Char) : Parser Unit
+  | d :: cs => if c = d then some ((), cs) else none
+  | [] => none
+
+def hexVal (c : Char) : Option Nat :=
+  if '0' ≤ c ∧ c ≤ '9' then some (c.toNat - 48)
+  else if 'a' ≤ c ∧ c ≤ 'f' then some (c.toNat - 87)
+  else none
+
+def parseHexPairs : List Char → Option (List UInt8 × List Char)
+  | a :: b :: cs =>
+    match hexVal a, hexVal b with
+    | some x, some y =>
+      match parseHexPairs cs with
+      | some (bs, rest) => some (UInt8.ofNat (16 * x + y) :: bs, rest)
+      | none => none
+    | _, _ => some ([], a :: b :: cs)
+  | cs => some ([], cs)
+
+def unhex (s : String) : Option (List UInt8) :=
+  if s = "-" then some [] else
+  match parseHexPairs s.toList with
+  | some (bs, []) => some bs
+  | _ => none
+
+def hexDigit (n : Nat) : Char := if n < 10 then Char.ofNat (48 + n) else Char.ofNat (87 + n)
+
+def hex (bs : List UInt8) : String :=
+  if bs.isEmpty then "-" else
+  String.ofList (bs.foldr (fun b acc => hexDigit (b.toNat / 16) :: hexDigit (b.toNat % 16) :: acc) [])
+
+def intWidth (s : String) : Option IntW :=
+  match s with
+  | "8" => some .w8 | "16" => some .w16 | "32" => some .w32 | "64" => some .w64 | "128" => some .w128
+  | "size" => some .wsize | _ => none
+
+def leafOfName (s : String) : Option Ty :=
+  match s with
+  | "bool" => some .bool | "char" => some .char | "f32" => some .f32 | "f64" => some .f64
+  | "unit" => some .unit | "str" => some .str | "dur" => some .duration
+  | _ =>
+    if s.startsWith "nzu" then (intWidth (s.drop 3).toString).map Ty.nzu
+    else if s.startsWith "nzi" then (intWidth (s.drop 3).toString).map Ty.nzs
+    else if s.startsWith "u" then (intWidth (s.drop 1).toString).map Ty.uint
+    else if s.startsWith "i" then (intWidth (s.drop 1).toString).map Ty.sint
+    else none
+
+/-- a value whose type is not known (default of a skipped field): digits, `-`digits, `s`hex, T/F/U -/
+def parseAny : Parser Val
+  | 's' :: cs => (parseHexPairs cs).map (fun (bs, r) => (.bytes bs, r))
+  | 'T' :: cs => some (.bool true, cs)
+  | 'F' :: cs => some (.bool false, cs)
+  | 'U' :: cs => some (.unit, cs)
+  | '-' :: cs => (parseNat cs).map (fun (n, r) => (.int (-(n : Int)), r))
+  | cs => (parseNat cs).map (fun (n, r) => (.nat n, r))
+
+mutual
+  partial def parseD : Parser D := fun cs =>
+    let (id, rest) := takeWhile Char.isAlphanum cs
+    let name := String.ofList id
+    match name with
+    | "opt" => do let (a, r) ← parseArgs rest; match a with | [d] => some (.opt d, r) | _ => none
+    | "seq" => do let (a, r) ← parseArgs rest; match a with | [d] => some (.seq d, r) | _ => none
+    | "set" => do let (a, r) ← parseArgs rest; match a with | [d] => some (.set d, r) | _ => none
+    | "bound" => do let (a, r) ← parseArgs rest; match a with | [d] => some (.bound d, r) | _ => none
+    | "res" => do let (a, r) ← parseArgs rest; match a with | [x, y] => some (.res x y, r) | _ => none
+    | "map" => do let (a, r) ← parseArgs rest; match a with | [x, y] => some (.map x y, r) | _ => none
+    | "tup" => do let (a, r) ← parseArgs rest; some (.tup a, r)
+    | "enum" => do let (a, r) ← parseArgs rest; some (.enm a, r)
+    | "arr" => do
+      let (_, r) ← expect '(' rest
+      let (n, r) ← parseNat r
+      let (_, r) ← expect ',' r
+      let (d, r) ← parseD r
+      let (_, r) ← expect ')' r
+      some (.arr n d, r)
+    | "skip" => do
+      let (_, r) ← expect '(' rest
+      let (v, r) ← parseAny r
+      let (_, r) ← expect ')' r
+      some (.leaf (.skip v), r)
+    | "bv" => do
+      let (_, r) ← expect '(' rest
+      let (w, r) := takeWhile Char.isAlphanum r
+      let w ← intWidth (String.ofList w)
+      let (_, r) ← expect ',' r
+      match r with
+      | 'L' :: ')' :: r => some (.leaf (.bitvec w false), r)
+      | 'M' :: ')' :: r => some (.leaf (.bitvec w true), r)
+      | _ => none
+    | _ => (leafOfName name).map (fun t => (.leaf t, rest))
+  partial def parseArgs : Parser (List D) := fun cs => do
+    let (_, r) ← expect '(' cs
+    match r with
+    | ')' :: r => some ([], r)
+    | _ => parseArgList r
+  partial def parseArgList : Parser (List D) := fun cs => do
+    let (d, r) ← parseD cs
+    match r with
+    | ',' :: r => do let (ds, r) ← parseArgList r; some (d :: ds, r)
+    | ')' :: r => some ([d], r)
+    | _ => none
+end
+
+def parseDesc (s : String) : Option D :=
+  match parseD s.toList with
+  | some (d, []) => some d
+  | _ => none
+
+partial def parseWords : Parser (List Nat) := fun cs =>
+  match parseNat cs with
+  | none => some ([], cs)
+  | some (n, '.' :: r) => (parseWords r).map (fun (ws, r) => (n :: ws, r))
+  | some (n, r) => some ([n], r)
+
+mutual
+  /-- parse a value along its descriptor -/
+  partial def parseV (d : D) : Parser Val := fun cs =>
+    match d with
+    | .leaf t =>
+      match t with
+      | .sint _ | .nzs _ =>
+        (match cs with
+         | '-' :: r => (parseNat r).map (fun (n, r) => (.int (-(n : Int)), r))
+         | _ => (parseNat cs).map (fun (n, r) => (.int (n : Int), r)))
+      | .bool => (match cs with | 'T' :: r => some (.bool true, r) | 'F' :: r => some (.bool false, r) | _ => none)
+      | .unit => (match cs with | 'U' :: r => some (.unit, r) | _ => none)
+      | .str => (match cs with | 's' :: r => (parseHexPairs r).map (fun (bs, r) => (.bytes bs, r)) | _ => none)
+      | .duration => do
+        let (_, r) ← expect '[' cs
+        let (s, r) ← parseNat r
+        let (_, r) ← expect ',' r
+        let (n, r) ← parseNat r
+        let (_, r) ← expect ']' r
+        some (.list (.cons (.nat s) (.cons (.nat n) .nil)), r)
+      | .skip _ => parseAny cs
+      | .bitvec _ _ => do
+        let (_, r) ← expect 'b' cs
+        let (len, r) ← parseNat r
+        let (_, r) ← expect ':' r
+        let (ws, r) ← parseWords r
+        some (.bits len ws, r)
+      | _ => (parseNat cs).map (fun (n, r) => (.nat n, r))
+    | .opt d => do
+      let (tag, p, r) ← parseTagged cs (fun tag => if tag = 0 then .leaf .unit else d)
+      some (.tagged tag p, r)
+    | .bound d => do
+      let (tag, p, r) ← parseTagged cs (fun tag => if tag = 0 then .leaf .unit else d)
+      some (.tagged tag p, r)
+    | .res a b => do
+      let (tag, p, r) ← parseTagged cs (fun tag => if tag = 0 then b else a)
+      some (.tagged tag p, r)
+    | .enm ds => do
+      let (tag, p, r) ← parseTagged cs (fun tag => (ds[tag]?).getD (.leaf (.skip .unit)))
+      if tag < ds.length then some (.tagged tag p, r) else none
+    | .seq d | .set d | .arr _ d => do
+      let (vs, r) ← parseItems cs (fun _ => d)
+      some (.list (ValList.ofList vs), r)
+    | .map k v => do
+      let (vs, r) ← parseItems cs (fun _ => .tup [k, v])
+      some (.list (ValList.ofList vs), r)
+    | .tup ds => do
+      let (vs, r) ← parseItems cs (fun i => (ds[i]?).getD (.leaf (.skip .unit)))
+      if vs.length = ds.length then some (.list (ValList.ofList vs), r) else none
+  partial def parseTagged (cs : List Char) (f : Nat → D) : Option (Nat × Val × List Char) := do
+    let (_, r) ← expect '#' cs
+    let (tag, r) ← parseNat r
+    let (_, r) ← expect '(' r
+    let (p, r) ← parseV (f tag) r
+    let (_, r) ← expect ')' r
+    some (tag, p, r)
+  partial def parseItems (cs : List Char) (f : Nat → D) : Option (List Val × List Char) := do
+    let (_, r) ← expect '[' cs
+    match r with
+    | ']' :: r => some ([], r)
+    | _ => parseItemList r f 0
+  partial def parseItemList (cs : List Char) (f : Nat → D) (i : Nat) : Option (List Val × List Char) := do
+    let (v, r) ← parseV (f i) cs
+    match r with
+    | ',' :: r => do let (vs, r) ← parseItemList r f (i + 1); some (v :: vs, r)
+    | ']' :: r => some ([v], r)
+    | _ => none
+end
+
+def parseValue (d : D) (s : String) : Option Val :=
+  match parseV d s.toList with
+  | some (v, []) => some v
+  | _ => none
+
+def renderAny : Val → String
+  | .nat n => toString n
+  | .int i => toString i
+  | .bool b => if b then "T" else "F"
+  | .unit => "U"
+  | .bytes bs => "s" ++ (if bs.isEmpty then "" else hex bs)
+  | _ => "?"
+
+def listStr (xs : List String) : String := "[" ++ ",".intercalate xs ++ "]"
+
+def sortStrs (xs : List String) : List String := (xs.toArray.qsort (fun a b => a < b)).toList
+
+/-- canonical rendering of a (decoded) value along its descriptor; unordered collections sorted -/
+partial def render (d : D) (v : Val) : String :=
+  match d, v with
+  | .leaf (.bitvec _ _), .bits len ws => "b" ++ toString len ++ ":" ++ ".".intercalate (ws.map toString)
+  | .leaf .duration, .list (.cons (.nat s) (.cons (.nat n) .nil)) => "[" ++ toString s ++ "," ++ toString n ++ "]"
+  | .leaf _, v => renderAny v
+  | .opt _, .tagged 0 p => "#0(" ++ renderAny p ++ ")"
+  | .opt d, .tagged t p => "#" ++ toString t ++ "(" ++ render d p ++ ")"
+  | .bound _, .tagged 0 p => "#0(" ++ renderAny p ++ ")"
+  | .bound d, .tagged t p => "#" ++ toString t ++ "(" ++ render d p ++ ")"
+  | .res _ b, .tagged 0 p => "#0(" ++ render b p ++ ")"
+  | .res a _, .tagged t p => "#" ++ toString t ++ "(" ++ render a p ++ ")"
+  | .enm ds, .tagged t p => "#" ++ toString t ++ "(" ++ (match ds[t]? with | some d => render d p | none => "?") ++ ")"
+  | .seq d, .list vs => listStr (vs.toList.map (render d))
+  | .arr _ d, .list vs => listStr (vs.toList.map (render d))
+  | .set d, .list vs => listStr (sortStrs (vs.toList.map (render d)))
+  | .map k v, .list vs => listStr (sortStrs (vs.toList.map (render (.tup [k, v]))))
+  | .tup ds, .list vs => listStr ((ds.zip vs.toList).map (fun (d, v) => render d v))
+  | _, _ => "?"
+
+def showErr : Err → String
+  | .eof => "eof" | .invalid => "invalid" | .panic => "panic"
+
+def outcome (d : D) (star : Bool) (total : Nat) : Except Err (Val × Bytes) → String
+  | .ok (v, rest) => "ok|" ++ (if star then "*" else render d v) ++ "|" ++ toString (total - rest.length)
+  | .error e => showErr e
+
+def splitOn1 (s : String) (c : Char) : List String := s.splitOn (String.singleton c)
+
+def doV (fix : Bool) (fields : List String) : String :=
+  match fields with
+  | [ds, vs, js] =>
+    match parseDesc ds, unhex js with
+    | some d, some junk =>
+      match parseValue d vs with
+      | none => "bad-op"
+      | some v =>
+        let t := d.toTy
+        if !wt t v then "ill-typed" else
+        let bytes := encode t v
+        let stream := bytes ++ junk
+        hex bytes ++ "|" ++ outcome d false stream.length (decode fix t stream)
+    | _, _ => "bad-op"
+  | _ => "bad-op"
+
+def doM (fix : Bool) (fields : List String) : String :=
+  match fields with
+  | [ds, hs] =>
+    match parseDesc ds, unhex hs with
+    | some d, some stream => outcome d d.unordered stream.length (decode fix d.toTy stream)
+    | _, _ => "bad-op"
+  | _ => "bad-op"
+
+partial def pairsOf : List String → Option (List (String × String) × String)
+  | [j] => some ([], j)
+  | d :: v :: rest => (pairsOf rest).map (fun (ps, j) => ((d, v) :: ps, j))
+  | _ => none
+
+def doP (fix : Bool) (fields : List String) : String :=
+  match fields with
+  | _n :: rest =>
+    match pairsOf rest with
+    | none => "bad-op"
+    | some (ps, js) =>
+      match unhex js with
+      | none => "bad-op"
+      | some junk =>
+        let parsed := ps.map (fun (ds, vs) =>
+          match parseDesc ds with
+          | none => none
+          | some d => (parseValue d vs).map (fun v => (d, v)))
+        if parsed.any Option.isNone then "bad-op" else
+        let dvs := parsed.filterMap id
+        if dvs.any (fun (d, v) => !wt d.toTy v) then "ill-typed" else
+        let bytes := encodeAll (dvs.map (fun (d, v) => (d.toTy, v)))
+        let stream := bytes ++ junk
+        let rec go (ds : List D) (bs : Bytes) (stopped : Bool) : List String :=
+          match ds with
+          | [] => []
+          | d :: ds =>
+            if stopped then "-" :: go ds bs true else
+            match decode fix d.toTy bs with
+            | .ok (v, rest) => ("ok|" ++ render d v ++ "|" ++ toString (bs.length - rest.length)) :: go ds rest false
+            | .error e => showErr e :: go ds bs true
+        "|".intercalate (hex bytes :: go (dvs.map (·.1)) stream false)
+  | _ => "bad-op"
+
+/-! interned streams -/
+
+structure HItem where
+  handle : Bool
+  tid : Nat
+  d : D
+  hash : Nat
+  v : Val
+
+def joinColon (xs : List String) : String := ":".intercalate xs
+
+def parseItem (s : String) : Option HItem :=
+  match splitOn1 s ':' with
+  | "p" :: ds :: rest => do
+    let d ← parseDesc ds
+    let v ← parseValue d (joinColon rest)
+    some ⟨false, 0, d, 0, v⟩
+  | "h" :: tid :: ds :: h :: rest => do
+    let d ← parseDesc ds
+    let v ← parseValue d (joinColon rest)
+    some ⟨true, tid.toNat!, d, h.toNat!, v⟩
+  | _ => none
+
+def parseItemTy (s : String) : Option HItem :=
+  match splitOn1 s ':' with
+  | ["p", ds] => (parseDesc ds).map (fun d => ⟨false, 0, d, 0, .unit⟩)
+  | ["h", tid, ds] => (parseDesc ds).map (fun d => ⟨true, tid.toNat!, d, 0, .unit⟩)
+  | _ => none
+
+def parseKnown (s : String) : Option HItem :=
+  match splitOn1 s ':' with
+  | tid :: ds :: h :: rest => do
+    let d ← parseDesc ds
+    let v ← parseValue d (joinColon rest)
+    some ⟨true, tid.toNat!, d, h.toNat!, v⟩
+  | _ => none
+
+def splitSemi (s : String) : List String := if s = "" then [] else splitOn1 s ';'
+
+def mkHash (tbl : List HItem) : Nat → Val → Nat := fun tid v =>
+  match tbl.find? (fun h => h.handle && h.tid == tid && h.v == v) with
+  | some h => h.hash
+  | none => 2 ^ 128   -- a value the harness never told us about: cannot collide with a real hash
+
+def warmInterner (tbl : List HItem) : Interner :=
+  tbl.foldl (fun I h =>
+    if h.handle then (match Interner.find I (h.tid, h.hash) with | some _ => I | none => ((h.tid, h.hash), h.v) :: I) else I) []
+
+def showDecoded (ds : List D) (out : List Decoded) : String :=
+  let idx := (List.range out.length).zip (out.zip ds)
+  ";".intercalate (idx.map (fun (i, (o, d)) =>
+    match o with
+    | .plain v => "p:" ++ render d v
+    | .handle slot v =>
+      let cls := (idx.find? (fun (_, (o', _)) => match o' with | .handle s' _ => s' == slot | _ => false)).map (·.1) |>.getD i
+      "h:" ++ toString cls ++ ":" ++ render d v))
+
+def iOutcome (ds : List D) (total : Nat) : Except Err (List Decoded × Bytes × Interner) → String
+  | .ok (out, rest, _) => "ok|" ++ showDecoded ds out ++ "|" ++ toString (total - rest.length)
+  | .error e => showErr e
+
+def doI (fix : Bool) (fields : List String) : String :=
+  match fields with
+  | [mode, itemsS, js] =>
+    let items := (splitSemi itemsS).map parseItem
+    match unhex js with
+    | none => "bad-op"
+    | some junk =>
+      if items.any Option.isNone then "bad-op" else
+      let items := items.filterMap id
+      if items.any (fun h => !wt h.d.toTy h.v) then "ill-typed" else
+      let hash := mkHash items
+      let mitems : List Item := items.map (fun h => if h.handle then .handle h.tid h.d.toTy h.v else .plain h.d.toTy h.v)
+      let bytes := encodeItems hash mitems []
+      let stream := bytes ++ junk
+      let I0 : Interner := if mode = "warm" then warmInterner items else []
+      hex bytes ++ "|" ++ iOutcome (items.map (·.d)) stream.length (decodeItems fix hash (mitems.map Item.ty) stream I0)
+  | _ => "bad-op"
+
+def doJ (fix : Bool) (fields : List String) : String :=
+  match fields with
+  | [mode, tysS, knownS, hs] =>
+    let tys := (splitSemi tysS).map parseItemTy
+    let known := (splitSemi knownS).map parseKnown
+    match unhex hs with
+    | none => "bad-op"
+    | some stream =>
+      if tys.any Option.isNone || known.any Option.isNone then "bad-op" else
+      let tys := tys.filterMap id
+      let known := known.filterMap id
+      let hash := mkHash known
+      let mtys : List ItemTy := tys.map (fun h => if h.handle then .handle h.tid h.d.toTy else .plain h.d.toTy)
+      let I0 : Interner := if mode = "warm" then warmInterner known else []
+      iOutcome (tys.map (·.d)) stream.length (decodeItems fix hash mtys stream I0)
+  | _ => "bad-op"
+
+def handle (fix : Bool) (line : String) : String :=
+  match splitOn1 line '|' with
+  | "V" :: rest => doV fix rest
+  | "M" :: rest => doM fix rest
+  | "P" :: rest => doP fix rest
+  | "I" :: rest => doI fix rest
+  | "J" :: rest => doJ fix rest
+  | _ => "bad-op"
+
+end CodecDriver
+
+partial def loop (fix : Bool) (h : IO.FS.Stream) (out : IO.FS.Stream) : IO Unit := do
+  let line ← h.getLine
+  if line.isEmpty then return ()
+  let line := if line.endsWith "\n" then (line.dropEnd 1).toString else line
+  out.putStrLn (CodecDriver.handle fix line)
+  loop fix h out
+
+def main (args : List String) : IO Unit := do
+  let fix := args.contains "--fix"
+  let stdin ← IO.getStdin
+  let stdout ← IO.getStdout
+  loop fix stdin stdout
